@@ -12,6 +12,7 @@ type Stmt interface {
 
 type ExpressionStatement struct {
 	Expression Expr
+	Line       int // line of the statement's first token
 }
 
 // String method for ExpressionStatement
@@ -21,6 +22,7 @@ func (e *ExpressionStatement) String() string {
 
 type PrintStatement struct {
 	Expression Expr
+	Line       int // line of the print keyword
 }
 
 // String method for PrintStatement
